@@ -340,6 +340,11 @@ void _vp_psy_init(vorbis_look_psy *p,vorbis_info_psy *vi,
     if(halfoc>=P_BANDS-1)halfoc=P_BANDS-1;
     inthalfoc=(int)halfoc;
     del=halfoc-inthalfoc;
+    if(inthalfoc>=P_BANDS-1){
+      /* top band: interpolate from below rather than read past the row */
+      inthalfoc=P_BANDS-2;
+      del=1.f;
+    }
 
     for(j=0;j<P_NOISECURVES;j++)
       p->noiseoffset[j][i]=
